@@ -214,9 +214,9 @@ func genTSSCase(rt *rapid.T, p tssProfile) tssCase {
 			}
 		case 7:
 			if gen.Chance(rt, "oreq", 1, 2) {
-				c.Ops = append(c.Ops, tssOp{K: "oreq", Variant: gen.OneOf(rt, "ofee", "enough", "enough", "low")})
+				c.Ops = append(c.Ops, tssOp{K: "oreq", N: gen.OneOf(rt, "oask", 1, 2, 2), Variant: gen.OneOf(rt, "ofee", "enough", "enough", "low")})
 			} else {
-				c.Ops = append(c.Ops, tssOp{K: "orep", S: gen.Uniform(rt, "r", 4)})
+				c.Ops = append(c.Ops, tssOp{K: "orep", S: gen.Uniform(rt, "r", 4), M: gen.Uniform(rt, "orv", 2), Variant: gen.OneOf(rt, "orall", "", "all", "all")})
 			}
 		}
 	}
@@ -302,6 +302,8 @@ type tssWorld struct {
 	c09Choice     bool
 	// oracle source
 	oracleReqs   []uint64
+	oracleSeen   map[uint64]bool   // signing ids already attributed to an oracle request
+	oracleSigned map[uint64]uint64 // oracle request id -> number of signings created for its result
 	oracleCount  uint64
 	stats        map[string]int64
 	resetPending bool
@@ -334,7 +336,7 @@ func coinsOf(f []int64) sdk.Coins {
 func newTSSWorld(c tssCase, obs tssObs, v *pbt.Verdict) *tssWorld {
 	w := &tssWorld{c: c, obs: obs, v: v, queue: map[string][]string{}, registered: map[string]string{}, assigned: map[string]bool{},
 		tssActive: map[string]bool{}, signings: map[uint64]*mSigning{}, expected: map[string]sdk.Coins{}, stats: map[string]int64{}, corruptKinds: map[string]bool{},
-		sigWant: map[uint64]c11Want{}, msgSeen: map[string]uint64{}}
+		sigWant: map[uint64]c11Want{}, msgSeen: map[string]uint64{}, oracleSeen: map[uint64]bool{}, oracleSigned: map[uint64]uint64{}}
 	w.fee = coinsOf(c.Fee)
 	w.maxDE = c.MaxDE
 	w.maxAttempt = c.MaxAttempt
@@ -385,7 +387,9 @@ func newTSSWorld(c tssCase, obs tssObs, v *pbt.Verdict) *tssWorld {
 	keep := sdk.NewCoins(sdk.NewInt64Coin("uband", c.PoorUser))
 	send := bal.Sub(keep...)
 	txs := [][]byte{ch.SignTx(poor, banktypesMsgSend(poor.Addr, w.users[0].Addr, send))}
-	txs = append(txs, ch.SignTx(ch.Vals[0], oracletypes.NewMsgActivate(ch.Vals[0].Val)))
+	for _, vv := range ch.Vals {
+		txs = append(txs, ch.SignTx(vv, oracletypes.NewMsgActivate(vv.Val)))
+	}
 	if _, err := ch.Block(txs, time.Second); err != nil {
 		v.Failf("harness", "setup block: %v", err)
 		ch.Close()
@@ -774,7 +778,11 @@ func (w *tssWorld) run() {
 			if op.Variant == "low" {
 				fl = sdk.NewCoins()
 			}
-			msg := oracletypes.NewMsgRequestData(1, []byte("cd"), 1, 1, "c", fl, 100_000, 1_000_000, u.Addr, oracletypes.ENCODER_PROTO)
+			ask := uint64(1)
+			if op.N == 2 { // both validators are asked, the first report resolves the request
+				ask = 2
+			}
+			msg := oracletypes.NewMsgRequestData(1, []byte("cd"), ask, 1, "c", fl, 100_000, 1_000_000, u.Addr, oracletypes.ENCODER_PROTO)
 			block = append(block, &builtTx{op: op, sender: u.Addr.String(), feeLimit: fl, bz: w.ch.SignTx(u, msg)})
 		case "orep":
 			if len(w.oracleReqs) == 0 {
@@ -782,9 +790,14 @@ func (w *tssWorld) run() {
 				continue
 			}
 			id := w.oracleReqs[op.S%len(w.oracleReqs)]
-			val := w.ch.Vals[0]
-			msg := oracletypes.NewMsgReportData(oracletypes.RequestID(id), []oracletypes.RawReport{oracletypes.NewRawReport(1, 0, []byte("x"))}, val.Val)
-			block = append(block, &builtTx{op: op, sender: val.Addr.String(), oracleID: id, bz: w.ch.SignTx(val, msg)})
+			reporters := []*sim.Account{w.ch.Vals[op.M%len(w.ch.Vals)]}
+			if op.Variant == "all" { // every validator reports in this block (reports after the min_count-th one in the same block)
+				reporters = w.ch.Vals
+			}
+			for _, val := range reporters {
+				msg := oracletypes.NewMsgReportData(oracletypes.RequestID(id), []oracletypes.RawReport{oracletypes.NewRawReport(1, 0, []byte("x"))}, val.Val)
+				block = append(block, &builtTx{op: op, sender: val.Addr.String(), oracleID: id, bz: w.ch.SignTx(val, msg)})
+			}
 		case "sig", "sigall":
 			open := w.openSignings()
 			if len(open) == 0 {
@@ -1311,6 +1324,19 @@ func (w *tssWorld) compareState(h int64) {
 			}
 			if mp := w.ch.App.BandtssKeeper.GetSigningIDMapping(ctx, tss.SigningID(id)); mp != 0 {
 				w.fail(w.obs.c10, "C10/owner-not-notified", "signing %d finished but the owner's mapping is still present", id)
+			}
+		}
+		if !w.oracleSeen[id] {
+			w.oracleSeen[id] = true
+			if p0, e0 := ref.ParseSigningMessage(sg.Message); e0 == nil {
+				if r0, k0, body, e1 := ref.SplitContent(p0.Content); e1 == nil && r0 == ref.RouteOracle && k0 == ref.KindProto {
+					if dec, e2 := ref.DecodeOracleProto(body); e2 == nil {
+						w.oracleSigned[dec.RequestID]++
+						if w.oracleSigned[dec.RequestID] > 1 {
+							w.fail(w.obs.c13 || w.obs.c11 || w.obs.c10, "C13/oracle-request-signed-twice", "signing %d is the %d. signing created (and charged) for the result of oracle request %d", id, w.oracleSigned[dec.RequestID], dec.RequestID)
+						}
+					}
+				}
 			}
 		}
 		if want, okw := w.sigWant[id]; okw && w.obs.c11 {
